@@ -2,6 +2,8 @@
    Only statements, `exact`, and Print Assumptions live here. *)
 From Verif Require Import Bytes Utf8 Facts_escapers Facts_esc EscapersM HtmlDecode Decoders
   Escapers_proofs Roundtrip_proofs.
+From Verif Require Import UrlRefM UrlRef_proofs UrlAttr_proofs.
+From Verif Require RendererM.
 Open Scope N_scope.
 
 (* Full statement, slot form: for every string s (any list of numbers, in
@@ -79,3 +81,131 @@ Example C07_js_example :
   jsStringEscape [226; 128; 168; 255; 34] = Some [[92; 117; 50; 48; 50; 56]; [255]; [92; 34]] /\
   js_decode [92; 117; 50; 48; 50; 56; 255; 92; 34] = [226; 128; 168; 255; 34].
 Proof. split; vm_compute; reflexivity. Qed.
+
+(* ---------------------------------------------------------------- URL attributes: several texts and shown strings in one attribute *)
+
+(* One URL attribute of a template is a sequence of literal texts and shown
+   strings (UrlRefM.item).  attr_out q items is the attribute value that the
+   renderer writes for them: it is what RendererM.r_run, the model of
+   renderer.Text / renderer.Show with the URL state (inURL, query,
+   addAmpersand, removeQuestionMark), writes for the operations of the
+   attribute with a writer that never fails, and no operation fails. *)
+Theorem C07_url_model_tie : forall (q : bool) (items : list item) (st : RendererM.rstate) (ws : RendererM.wst),
+  forallb item_ok items = true ->
+  RendererM.r_run TCalcM.never st ws (attr_ops q items)
+  = (fst (run_items q st items), add_chunks ws (snd (run_items q st items)), repeat RendererM.ROk (length items)).
+Proof. exact r_run_items. Qed.
+
+(* Full statement: for every attribute and every string shown in it after the
+   question mark of the URL (the decoded text before it contains a question
+   mark and no number sign; no character reference and no percent escape is
+   left open by the text before it), the reference decoder of URL attributes
+   (HTML decoding, split at the first number sign and question mark, split of
+   the query at the ampersands and of each pair at its first equals sign,
+   percent decoding of each component) gives a URL in which the string occurs
+   verbatim inside one key or one value, everything else being independent of
+   the string. *)
+Definition C07_url_statement : Prop :=
+  forall (q : bool) (before after : list item),
+    let pre := attr_out q before in
+    html_closed pre ->
+    (forall path qs, split_first c_qm (snd (hrun HData pre)) = (path, Some qs) ->
+       ~ In c_hash (snd (hrun HData pre)) -> pct_closed (slot_prefix qs)) ->
+    In c_qm (snd (hrun HData pre)) -> ~ In c_hash (snd (hrun HData pre)) ->
+    exists path bq aq frag (plug : bytes -> pair),
+      plugs plug /\
+      forall s, url_ref_decode (attr_out q (before ++ UShow s :: after))
+                = mkUrl path (Some (bq ++ [plug s] ++ aq)) frag.
+
+(* Proved for the strings that the renderer puts in a query position: some
+   template text lies at or after the first question mark or number sign of
+   the attribute (UrlRefM.query_position). *)
+Theorem C07_url_partial :
+  forall (q : bool) (before after : list item),
+    query_position before = true ->
+    let pre := attr_out q before in
+    html_closed pre ->
+    (forall path qs, split_first c_qm (snd (hrun HData pre)) = (path, Some qs) ->
+       ~ In c_hash (snd (hrun HData pre)) -> pct_closed (slot_prefix qs)) ->
+    In c_qm (snd (hrun HData pre)) -> ~ In c_hash (snd (hrun HData pre)) ->
+    exists path bq aq frag (plug : bytes -> pair),
+      plugs plug /\
+      forall s, url_ref_decode (attr_out q (before ++ UShow s :: after))
+                = mkUrl path (Some (bq ++ [plug s] ++ aq)) frag.
+Proof. exact url_attribute_roundtrip. Qed.
+Print Assumptions C07_url_partial.
+
+(* The full statement is false of the faithful model (the unchanged code): a
+   string shown right after a shown string that brought the question mark
+   ({{ a }}{{ b }} with a = /s?q=) is written with pathEscape; with b = a and
+   b = a&b=c the decoded queries have one and two pairs. *)
+Theorem C07_url_statement_refuted : ~ C07_url_statement.
+Proof.
+  intros H.
+  destruct (H true [UShow [47; 115; 63; 113; 61]] []) as [path [bq [aq [frag [plug [_ Hd]]]]]].
+  - reflexivity.
+  - intros path qs E _. vm_compute in E. injection E as _ <-. reflexivity.
+  - vm_compute. tauto.
+  - apply mem_false_not_in. vm_compute. reflexivity.
+  - pose proof (Hd [97]) as H1. pose proof (Hd [97; 38; 98; 61; 99]) as H2.
+    vm_compute in H1. vm_compute in H2.
+    injection H1 as _ E1 _. injection H2 as _ E2 _.
+    apply (f_equal (@length pair)) in E1. apply (f_equal (@length pair)) in E2.
+    rewrite !app_length in E1, E2. cbn [length] in E1, E2. lia.
+Qed.
+
+(* which escaper a shown string gets: queryEscape exactly in the query positions *)
+Theorem C07_url_escaper_choice : forall (q : bool) (before : list item) (s : bytes),
+  let st := fst (run_items q RendererM.r0 before) in
+  snd (RendererM.r_show_url (RendererM.url_switch st true) s q)
+  = (if query_position before then RendererM.queryEscape s else RendererM.pathEscape q s)
+  /\ (query_position before = true ->
+      fst (RendererM.r_show_url (RendererM.url_switch st true) s q) = RendererM.url_switch st true).
+Proof. exact show_escaper_choice. Qed.
+
+(* in the fragment of the URL the string is given back as well *)
+Theorem C07_url_fragment : forall pre post,
+  html_closed pre ->
+  forall pq f, split_first c_hash (snd (hrun HData pre)) = (pq, Some f) ->
+  fst (prun false PData f) = PData ->
+  exists u, forall s,
+    u_frag (url_ref_decode (pre ++ flat (queryEscape s) ++ post))
+    = Some (pct_decode f ++ s ++ pct_decode (html_decode post)) /\
+    u_path (url_ref_decode (pre ++ flat (queryEscape s) ++ post)) = u_path u /\
+    u_query (url_ref_decode (pre ++ flat (queryEscape s) ++ post)) = u_query u.
+Proof. exact url_fragment_slot. Qed.
+
+(* T1 obligations on the generated tables: queryEscape writes no ampersand,
+   equals sign, number sign or question mark; the table of Facts_render (used
+   by the renderer model) and the one of Facts_esc (used by the escaper model)
+   agree on every byte *)
+Theorem C07_query_output_obligation : forallb query_block_check all_bytes = true.
+Proof. exact fact_query_sep_free. Qed.
+Theorem C07_query_tables_obligation :
+  forall c, assoc_get Facts_render.gen_queryEscape c = assoc_get gen_queryEscape_tbl c.
+Proof. exact query_tables_agree. Qed.
+
+(* further witnesses of what does not hold, evaluated on the model *)
+Theorem C07_url_path_position_refuted :
+  query_position [UText [47; 112; 47]] = false /\
+  u_path (url_ref_decode (attr_out true [UText [47; 112; 47]; UShow [37; 52; 49]])) = [47; 112; 47; 65].
+Proof. exact path_position_refuted. Qed.
+(* srcset = a.png, /img?w={{ s }} with s = 1&h=2: the value is query escaped (repaired by c46d17c) *)
+Example C07_url_srcset_comma_example :
+  let ops := [RendererM.OText [97; 46; 112; 110; 103; 44; 32; 47; 105; 109; 103; 63; 119; 61] true true;
+              RendererM.OShow 199 (RendererM.mkShown [] None (Some [49; 38; 104; 61; 50]))] in
+  concat (RendererM.w_out (snd (fst (RendererM.r_run TCalcM.never RendererM.r0 RendererM.w0 ops))))
+  = [97; 46; 112; 110; 103; 44; 32; 47; 105; 109; 103; 63; 119; 61] ++ [49; 37; 50; 54; 104; 37; 51; 100; 50].
+Proof. exact srcset_comma_example. Qed.
+
+(* the hypotheses are satisfiable: href = {{ base }}&amp;q={{ s }}#f with base = /s?l=en and s = a&b +%41 *)
+Example C07_url_example :
+  let before := [UShow [47; 115; 63; 108; 61; 101; 110]; UText [38; 97; 109; 112; 59; 113; 61]] in
+  let after := [UText [35; 102]] in
+  query_position before = true /\
+  html_closed (attr_out true before) /\
+  In c_qm (snd (hrun HData (attr_out true before))) /\ ~ In c_hash (snd (hrun HData (attr_out true before))) /\
+  pct_closed (slot_prefix [108; 61; 101; 110; 38; 113; 61]) /\
+  url_ref_decode (attr_out true (before ++ UShow [97; 38; 98; 32; 43; 37; 52; 49] :: after))
+  = mkUrl [47; 115] (Some [([108], Some [101; 110]); ([113], Some [97; 38; 98; 32; 43; 37; 52; 49])]) (Some [102]).
+Proof. exact url_attribute_example. Qed.
